@@ -4,6 +4,7 @@ import (
 	"context"
 	"fmt"
 	"math/big"
+	"strings"
 
 	"github.com/iden3/go-iden3-crypto/poseidon"
 	"github.com/iden3/go-merkletree-sql/v2"
@@ -122,6 +123,43 @@ func smtFaults() []smtFault {
 			p.IssuerData.ID = victimDID
 			p.IssuerData.State.Value = hexOfInt(s.is.genesis)
 			res.mode = r.Pick([]string{"unpublished", "nil"})
+		}},
+		{name: "own-tree-victim-state-unusable-root", apply: func(s *verifySetup, p *verifiable.Iden3SparseMerkleTreeProof, res *resolverCfg, r *Rng) {
+			// a forger's tree holding the claim under the victim's DID and the victim's state (published, or the genesis state the
+			// DID commits to), with a revocation / roots-of-roots root that is present but is no field element in hex:
+			// the state cannot be related to the roots, so nothing ties the claims root to the issuer
+			o := NewIssuer(r, r.Intn(4))
+			np, err := o.IssueSMT(s.claim)
+			if err != nil {
+				return
+			}
+			victimDID, victimState := p.IssuerData.ID, p.IssuerData.State.Value
+			*p = *np
+			p.IssuerData.ID = victimDID
+			if r.Bool() {
+				p.IssuerData.State.Value = victimState
+				res.mode = "published"
+			} else {
+				p.IssuerData.State.Value = hexOfInt(s.is.genesis)
+				res.mode = r.Pick([]string{"unpublished", "nil", "published"})
+			}
+			bad := unusableRoot(r)
+			if r.Bool() {
+				p.IssuerData.State.RevocationTreeRoot = &bad
+			} else {
+				p.IssuerData.State.RootOfRoots = &bad
+			}
+		}},
+		{name: "unusable-root", apply: func(s *verifySetup, p *verifiable.Iden3SparseMerkleTreeProof, res *resolverCfg, r *Rng) {
+			bad := unusableRoot(r)
+			switch r.Intn(3) {
+			case 0:
+				p.IssuerData.State.RevocationTreeRoot = &bad
+			case 1:
+				p.IssuerData.State.RootOfRoots = &bad
+			default:
+				p.IssuerData.State.ClaimsTreeRoot = &bad
+			}
 		}},
 		{name: "genesis-state-one-root-replaced-unpublished", apply: func(s *verifySetup, p *verifiable.Iden3SparseMerkleTreeProof, res *resolverCfg, r *Rng) {
 			// the issuer's real tree and proof, the genesis state of its DID, but a revocation or roots-of-roots root of the forger's choosing
@@ -307,3 +345,9 @@ func genC08(out *Out, r *Rng, tier string, n int, shard int) {
 }
 
 func init() { gens["C08"] = genC08 }
+
+// unusableRoot: a root member that is present but does not denote a field element in hex
+func unusableRoot(r *Rng) string {
+	return r.Pick([]string{"", "zz", "12345", "0x00", strings.Repeat("f", 64), strings.Repeat("0", 63), strings.Repeat("0", 66), "123456789012345678901234567890123456789012345678901234567890123g",
+		"21888242871839275222246405745257275088548364400416034343698204186575808495617", " " + strings.Repeat("0", 63)})
+}
